@@ -56,17 +56,33 @@ func init() {
 			}
 			// which top-level collection fields does ListFiles range over, reading .URI inside?
 			covered := map[string]bool{}
-			inspect(f.Decl.Body, func(nd ast.Node) bool {
-				rs, ok := nd.(*ast.RangeStmt)
-				if !ok {
-					return true
+			// every loop (range or counted) over a field of the document whose body reads .URI
+			var srcField *types.Var
+			for _, lp := range fullLoopsOver(info, f.Decl.Body, func(e ast.Expr) bool {
+				srcField = prog.SelField(info, e)
+				return srcField != nil
+			}) {
+				var fld *types.Var
+				switch x := lp.Stmt.(type) {
+				case *ast.RangeStmt:
+					fld = prog.SelField(info, x.X)
+				case *ast.ForStmt:
+					if b, ok := ast.Unparen(x.Cond).(*ast.BinaryExpr); ok {
+						inspect(b.Y, func(m ast.Node) bool {
+							if e, ok := m.(ast.Expr); ok && fld == nil {
+								if v := prog.SelField(info, e); v != nil {
+									fld = v
+								}
+							}
+							return true
+						})
+					}
 				}
-				fld := prog.SelField(info, rs.X)
 				if fld == nil {
-					return true
+					continue
 				}
 				readsURI := false
-				inspect(rs.Body, func(m ast.Node) bool {
+				inspect(lp.Body, func(m ast.Node) bool {
 					if sel, ok := m.(*ast.SelectorExpr); ok && sel.Sel.Name == "URI" {
 						if v := prog.SelField(info, sel); v != nil {
 							readsURI = true
@@ -77,8 +93,7 @@ func init() {
 				if readsURI {
 					covered[fld.Name()] = true
 				}
-				return true
-			})
+			}
 			for _, p := range paths {
 				top := p
 				for i, ch := range p {
